@@ -90,26 +90,28 @@ def push (cfg : Cfg) (c : Coll T) (x : T) : Except Err (Coll T) :=
     if index = cfg.N then .error (.listFull index)
     else .ok { c with updates := c.updates.insert index x }
 
-/-- `MutList::update` (`list.rs:292-310` with the `fix:` for F3 — the length is assigned after
-the tree; `vector.rs:240-257`). -/
+/-- `MutList::update` (`list.rs`, `vector.rs`): validate the largest key, then (lists) assign the
+new length, then rebuild the tree. The length is assigned *before* the tree update, so it stays
+changed if the tree update fails. -/
 def backingUpdate (pf : Option Nat) (z : H) (cfg : Cfg) (c : Coll T) (u : UMap T) (h : Heap H) :
-    Except Err (Coll T × Heap H) :=
+    (Except Err Unit) × Coll T × Heap H :=
   match u.maxIndex with
-  | none => .ok (c, h)
+  | none => (.ok (), c, h)
   | some mx =>
     match c.kind with
     | .list =>
-      if mx ≥ cfg.N then .error .invalidListUpdate
+      if mx ≥ cfg.N then (.error .invalidListUpdate, c, h)
       else
+        let c1 := { c with length := max (mx + 1) c.length }
         match updLeaves pf z u h c.tree 0 c.depth with
-        | .error e => .error e
-        | .ok (t, h) => .ok ({ c with tree := t, length := max (mx + 1) c.length }, h)
+        | .error e => (.error e, c1, h)
+        | .ok (t, h) => (.ok (), { c1 with tree := t }, h)
     | .vector =>
-      if mx ≥ c.length then .error .invalidVectorUpdate
+      if mx ≥ c.length then (.error .invalidVectorUpdate, c, h)
       else
         match updLeaves pf z u h c.tree 0 c.depth with
-        | .error e => .error e
-        | .ok (t, h) => .ok ({ c with tree := t }, h)
+        | .error e => (.error e, c, h)
+        | .ok (t, h) => (.ok (), { c with tree := t }, h)
 
 /-- `Interface::apply_updates` (`interface.rs:86-93`): the map is taken first, so it is gone
 even if the update fails. Returns the collection in both cases. -/
@@ -119,9 +121,7 @@ def applyUpdates (pf : Option Nat) (z : H) (cfg : Cfg) (c : Coll T) (h : Heap H)
   else
     let u := c.updates
     let c0 := { c with updates := UMap.empty cfg.map }
-    match backingUpdate pf z cfg c0 u h with
-    | .ok (c1, h) => (.ok (), c1, h)
-    | .error e => (.error e, c0, h)
+    backingUpdate pf z cfg c0 u h
 
 /-- The contiguity check of the `fix:` for F3 in `List::bulk_update`: keys at or beyond the
 backing length must extend it without gaps. Returns the first offending `(index, next)`. -/
@@ -380,7 +380,7 @@ def intraRebaseColl [DecidableEq H] (E : Elem T H) (A : HashAlg H) (cfg : Cfg)
   | (.error e, c, h) => (.error e, c, h)
   | (.ok (), c, h) =>
     let (_, h) := treeHash E A h c.tree
-    match intraRebase E.pf A.zero h [] c.tree c.depth c.length with
+    match intraRebase E A h [] c.tree c.depth c.length with
     | .error e => (.error e, c, h)
     | .ok (.replace t, _, h) => (.ok (), { c with tree := t }, h)
     | .ok (.noop, _, h) => (.ok (), c, h)
